@@ -5,7 +5,8 @@
 // it when every started instance has been awaited).
 //
 //	engine <gun> <startup> <rps> <ammo-bound> <delay-ms> <queue> <entry>,<entry>...
-//	       gun      http | connect
+//	       gun      http | connect, optionally followed by @localhost (the target written with a host name: the gun
+//	                factory pre-resolves it, base.go PreResolveTargetAddr) or @nodns (host name and dial: {dns-cache: false})
 //	       startup  once:<n> | const:<ops>:<ms> | line:<from>:<to>:<ms> | step:<from>:<to>:<step>:<ms> |
 //	                istep:<from>:<to>:<step>:<ms>, several joined by '+' (composite)
 //	       rps      shared-unl | own-unl | shared-const:<ops>:<ms> | own-once:<k> | own-const:<ops>:<ms>
@@ -100,7 +101,8 @@ func runEngine(f []string) string {
 	}
 	importAll()
 	gun, startup, rps, bound, delay, queue := f[1], f[2], f[3], f[4], f[5], f[6]
-	if gun != "http" && gun != "connect" {
+	gun, how, _ := strings.Cut(gun, "@")
+	if (gun != "http" && gun != "connect") || (how != "" && how != "localhost" && how != "nodns") {
 		return "unknown-case"
 	}
 	startY, ok := schedulesYAML(startup)
@@ -150,15 +152,22 @@ func runEngine(f []string) string {
 		return "fserr"
 	}
 	defer func() { _ = cfgFs.Remove(ammoFile); _ = cfgFs.Remove(outFile) }()
+	gunTarget, gunExtra := t.Addr(), ""
+	if how != "" {
+		gunTarget = strings.Replace(gunTarget, "127.0.0.1", "localhost", 1)
+	}
+	if how == "nodns" {
+		gunExtra = ", dial: {dns-cache: false}"
+	}
 	text := fmt.Sprintf(`pools:
   - id: engine-%d
-    gun: {type: %s, target: "%s"}
+    gun: {type: %s, target: "%s"%s}
     ammo: {type: uri, file: %s, %s: %s}
     result: {type: phout, destination: %s, id: true, sample-queue-size: %s}
     rps-per-instance: %v
     rps: %s
     startup: %s
-`, engSeq, gun, t.Addr(), ammoFile, boundKey, bound[1:], outFile, queue, own, rpsY, startY)
+`, engSeq, gun, gunTarget, gunExtra, ammoFile, boundKey, bound[1:], outFile, queue, own, rpsY, startY)
 	tree, err := yamlTree(text)
 	if err != nil {
 		return "yamlerr"
@@ -234,8 +243,8 @@ func genEngine(r *vh.Rand, tier string) []string {
 		"engine http line:20:80:3000 shared-unl L5 120 1000 " + vh.HexS("a") + ":200," + vh.HexS("b") + ":404",
 		"engine http step:40:80:20:1000 own-unl P2 120 8 " + vh.HexS("a") + ":200," + vh.HexS("") + ":503," + vh.HexS("c d") + ":301",
 		"engine connect istep:1:8:1:25 shared-unl L6 150 1000 " + vh.HexS("t") + ":200," + vh.HexS("u") + ":trunc",
-		"engine http once:1+const:40:3000 shared-unl L3 200 0 " + vh.HexS("x") + ":201",
-		"engine http once:4 shared-unl L9 40 2 " + vh.HexS("a") + ":200," + vh.HexS("b") + ":500",
+		"engine http@localhost once:1+const:40:3000 shared-unl L3 200 0 " + vh.HexS("x") + ":201",
+		"engine http@nodns once:4 shared-unl L9 40 2 " + vh.HexS("a") + ":200," + vh.HexS("b") + ":500",
 		"engine http const:100:60 own-once:3 L100 30 1000 " + vh.HexS("a") + ":200," + vh.HexS("b") + ":404",
 		"engine http const:50:3000 shared-const:100:100 L100 60 1000 " + vh.HexS("a") + ":200",
 	}
@@ -245,7 +254,7 @@ func genEngine(r *vh.Rand, tier string) []string {
 	}
 	tags := []string{"", "a", "b", "case1", "tag with space", "a|b", "ü"}
 	for i := 0; i < n; i++ {
-		gun := r.Pick([]string{"http", "http", "http", "connect"})
+		gun := r.Pick([]string{"http", "http", "http", "connect"}) + r.Pick([]string{"", "", "", "@localhost", "@nodns"})
 		delay := r.PickInt([]int{60, 100, 150, 200})
 		var startup string
 		switch r.Intn(7) {
